@@ -24,7 +24,8 @@ RULE = ("real ArgumentParser(conflict_resolution=ALWAYS_MERGE); one field `val` 
         "comma literals, wrong arity, malformed).  For every (configuration, count) the value tuples are enumerated when the pool^count "
         "is small, else sampled from VERIF_SEED.  Observed: canonical type-distinguishing value of namespace.<dest_i>.val for every i, "
         "or the exception class.  Non-trivial = set-up succeeded and the parse reached the distribution step; distinct by full case.")
-TRUSTED = ["ast.literal_eval of each command-line token is computed by the interpreter under test and handed to the model/spec "
+TRUSTED = ["Model/MiniPy.v (the interpreter is the reading of Python for the dumped body of FieldWrapper.duplicate_if_needed; itself checked against CPython by ./check MINIPY) and harness/translate/minipy.py (syntax-to-syntax dump, fail closed)",
+           "ast.literal_eval of each command-line token is computed by the interpreter under test and handed to the model/spec "
            "(Model/Merge.v `t_lit`)",
            "argparse collects the tokens after the option into one list (nargs '*'/'+'), applies type= per token (ValueError/TypeError/"
            "ArgumentTypeError -> exit 2) and choices; a required option that is absent is exit 2"]
